@@ -533,6 +533,97 @@ def _agg_def(f, bid, si, local):
     return None
 
 
+def _resolve_unique_def_switches(f):
+    """switchInt(discriminant(L)) where L has exactly one definition in the whole function and that definition is an Option/Result
+    aggregate (possibly through plain moves between uniquely defined locals): the switch becomes a goto to the selected arm.
+    Only spliced helper bodies are touched (blocks with an origin), so the function's own control flow keeps its shape."""
+    blocks = f["blocks"]
+    defs = {}
+    for b in blocks:
+        if b["cleanup"]:
+            continue
+        for st in b["stmts"]:
+            if st["k"] == "assign":
+                defs.setdefault(st["place"]["local"], []).append(st)
+            elif st["k"] == "setdiscr":
+                defs.setdefault(st["place"]["local"], []).append(None)
+        t = b["term"]
+        if t["k"] == "call":
+            defs.setdefault(t["dest"]["local"], []).append(None)
+    # locals whose address is taken mutably or that are arguments (params) are not unique-def candidates
+    nparams = f.get("arg_count") or 0
+    mutref = set()
+    for b in blocks:
+        for st in b["stmts"]:
+            rv = st.get("rv") if st["k"] == "assign" and isinstance(st.get("rv"), dict) else None
+            if rv and "ref" in rv and rv.get("mut") and isinstance(rv["ref"], dict):
+                mutref.add(rv["ref"]["local"])
+            if rv and "rawptr" in rv and isinstance(rv["rawptr"], dict):
+                mutref.add(rv["rawptr"]["local"])
+
+    def variant_of(loc, depth=0):
+        if depth > 6 or loc <= nparams or loc in mutref:
+            return None
+        ds = defs.get(loc) or []
+        if len(ds) != 1 or ds[0] is None or ds[0]["place"]["proj"]:
+            return None
+        rv = ds[0].get("rv") if isinstance(ds[0].get("rv"), dict) else {}
+        a = rv.get("aggregate")
+        if a and a.get("kind") == "adt" and a.get("adt") in ("std::option::Option", "std::result::Result") and a.get("idx") is not None:
+            return a.get("idx")
+        src = (rv.get("use") or {}) if isinstance(rv.get("use"), dict) else {}
+        spl = src.get("move") or src.get("copy")
+        if spl and not spl["proj"]:
+            return variant_of(spl["local"], depth + 1)
+        return None
+    changed = 0
+    for b in blocks:
+        t = b["term"]
+        if b["cleanup"] or t["k"] != "switch" or not b.get("origin") or not b["stmts"]:
+            continue
+        last = b["stmts"][-1]
+        if not (last["k"] == "assign" and isinstance(last.get("rv"), dict) and "discriminant" in last["rv"] and not last["rv"]["discriminant"]["proj"]):
+            continue
+        dpl = t["discr"].get("move") or t["discr"].get("copy")
+        if not dpl or dpl["proj"] or dpl["local"] != last["place"]["local"]:
+            continue
+        vi = variant_of(last["rv"]["discriminant"]["local"])
+        if vi is None:
+            continue
+        tgt = None
+        for (val, bb) in t["targets"]:
+            if val == vi:
+                tgt = bb
+        if tgt is None:
+            tgt = t["otherwise"]
+        b["resolved_switch"] = t
+        b["term"] = {"k": "goto", "target": tgt, "line": t.get("line"), "exp": None, "threaded": "unique-def"}
+        changed += 1
+    return changed
+
+
+def _canon_collect_value(f, bid):
+    """`iter.collect::<serde_json::Value>()` is serde_json's `Value::Array(iter.map(Into::into).collect())`: written that way in the view
+    (collect into a Vec<Value>, then the Array literal), so that a JSON array built either way looks the same to the rules"""
+    b = f["blocks"][bid]
+    t = b["term"]
+    if b["cleanup"] or t["k"] != "call" or t.get("name") != "collect" or t.get("trait") != "std::iter::Iterator" or t.get("target") is None:
+        return False
+    ga = t.get("gargs") or []
+    if not ga or ga[-1] != "serde_json::Value" or t["dest"]["proj"]:
+        return False
+    line = t.get("line")
+    tmp = _new_local(f, "std::vec::Vec<serde_json::Value>", "collect-value")
+    wrap = _new_block(f, [{"k": "assign", "place": dict(t["dest"]), "rv": {"aggregate": {"kind": "adt", "adt": "serde_json::Value", "variant": "Array", "idx": 4, "fields": ["0"]},
+                                                                           "ops": [{"move": {"local": tmp, "proj": []}}]}, "line": line, "exp": None, "synth": True}],
+                      {"k": "goto", "target": t["target"], "line": line, "exp": None}, "collect-value")
+    t["dest"] = {"local": tmp, "proj": []}
+    t["target"] = wrap
+    t["gargs"] = list(ga[:-1]) + ["std::vec::Vec<serde_json::Value>"]
+    t["canon"] = "collect::<Value>"
+    return True
+
+
 def _live_blocks(f):
     """ids of the blocks reachable from the entry (threading leaves the unthreaded originals behind, often unreachable)"""
     blocks = f["blocks"]
@@ -1417,6 +1508,11 @@ class Views:
             own_ids = [b["id"] for b in f["blocks"]]
             pending = []
             for bid in own_ids:
+                try:
+                    _canon_collect_value(f, bid)
+                except Exception:
+                    pass
+            for bid in own_ids:
                 tt = f["blocks"][bid]["term"]
                 if tt["k"] == "call" and (tt.get("self_adt"), tt.get("name")) in COMBINATORS and not f["blocks"][bid]["cleanup"]:
                     try:
@@ -1448,12 +1544,31 @@ class Views:
                 if t["k"] != "call" or not t.get("resolved_local"):
                     continue
                 cn = t.get("resolved")
+                if cn in self.raw and cn != name and self.raw[cn].get("kind") == "closure" and t.get("trait") in ("std::ops::Fn", "std::ops::FnMut", "std::ops::FnOnce") \
+                        and t.get("name") in ("call", "call_mut", "call_once") and len(t["args"]) == 2 and cn not in stack and cn not in self.recursive \
+                        and len(self.raw[cn]["blocks"]) <= MAX_CALLEE_BLOCKS:
+                    # a local closure called directly (`let mut next_part = |i| ..; next_part(0)?`): a private helper in all but name. The
+                    # arguments arrive as one tuple (rust-call ABI); the closure body takes them one by one.
+                    h = self.get(cn, depth + 1, stack + (name,))
+                    tup = t["args"][1].get("move") or t["args"][1].get("copy")
+                    nargs = (h.get("arg_count") or 1) - 1
+                    if tup and not tup["proj"] and len(f["blocks"]) + len(h["blocks"]) <= MAX_VIEW_BLOCKS:
+                        t["args"] = [t["args"][0]] + [{"move": {"local": tup["local"], "proj": [{"k": "field", "idx": i, "name": str(i), "adt": None}]}} for i in range(nargs)]
+                        t["untupled"] = True
+                        _splice(f, bid, h, cn)
+                    continue
                 if cn not in self.raw or cn == name or not inlinable(cn, self.raw[cn], self.recursive):
                     continue
                 h = self.get(cn, depth + 1, stack + (name,))
                 if len(f["blocks"]) + len(h["blocks"]) > MAX_VIEW_BLOCKS:
                     continue
                 _splice(f, bid, h, cn)
+            # a helper spliced with a literal `None` / `Some(x)` argument and dispatching on it (`fn rules(aud: Option<&str>)` called once
+            # with None and once with Some): the parameter copy has one definition, so the dispatch is decided at that call site
+            try:
+                _resolve_unique_def_switches(f)
+            except Exception:
+                pass
             # `matches!(x, P if g)` / `let ok = if c { true } else { false }`: a bool temporary assigned constants in the arms and tested right
             # after the merge. Thread every constant assignment to the arm it selects (classic jump threading of a constant merge).
             try:
